@@ -16,9 +16,10 @@ echo "== with change: full suite"
 eval cargo test --offline --no-fail-fast $FEAT 2>&1 | grep -E "^test result|Running|FAILED|failed" > $DEST/with_change.txt
 SUITE_FAIL=$(grep -B1 "FAILED\|[1-9][0-9]* failed" $DEST/with_change.txt | grep "Running" | grep -v seed_demo | wc -l)
 DEMO_FAIL_WITH=$(eval cargo test --offline $FEAT --test seed_demo 2>&1 | grep -c "test result: FAILED")
-git stash push -q -- src
+# (not git stash: the stash stack is shared by all worktrees of the repository)
+git apply -R $DEST/patch.diff
 DEMO_PASS_WITHOUT=$(eval cargo test --offline $FEAT --test seed_demo 2>&1 | grep -c "test result: ok")
-git stash pop -q
+git apply $DEST/patch.diff
 echo "suite targets failing (other than demo): $SUITE_FAIL ; demo fails with change: $DEMO_FAIL_WITH ; demo passes without: $DEMO_PASS_WITHOUT"
 cd /repo && git apply $DEST/patch.diff || { echo "patch does not apply to /repo"; exit 3; }
 RES=""
